@@ -250,7 +250,7 @@ func optionalAuthThird(w http.ResponseWriter, r *http.Request) (mustAuth bool) {
 		// Check Basic authentication.
 		user, pass, hasBasic := r.BasicAuth()
 		if hasBasic {
-			_, isAuthenticated = globalContext.auth.findUser(user, pass)
+			isAuthenticated = checkBasicAuth(r, user, pass)
 			if !isAuthenticated {
 				log.Info("%s: invalid basic authorization value", pref)
 			}
@@ -281,6 +281,39 @@ func optionalAuthThird(w http.ResponseWriter, r *http.Request) (mustAuth bool) {
 	}
 
 	return true
+}
+
+// checkBasicAuth checks the HTTP Basic credentials of r.  It is a login attempt
+// from the remote address just like a POST to /control/login, so it is subject
+// to the same rate limiter, keyed by the same address, with the same
+// bookkeeping as in [handleLogin] and [Auth.newCookie]:  a blocked address
+// doesn't get its password evaluated, a failure is counted, and a success
+// clears the count.  The control lock makes the three steps atomic with regard
+// to the other login attempts.
+func checkBasicAuth(r *http.Request, user, pass string) (ok bool) {
+	remoteIP, err := netutil.SplitHost(r.RemoteAddr)
+	if err != nil {
+		return false
+	}
+
+	globalContext.controlLock.Lock()
+	defer globalContext.controlLock.Unlock()
+
+	rateLimiter := globalContext.auth.rateLimiter
+	if rateLimiter != nil && rateLimiter.check(remoteIP) > 0 {
+		return false
+	}
+
+	_, ok = globalContext.auth.findUser(user, pass)
+	if rateLimiter == nil {
+		return ok
+	} else if ok {
+		rateLimiter.remove(remoteIP)
+	} else {
+		rateLimiter.inc(remoteIP)
+	}
+
+	return ok
 }
 
 // TODO(a.garipov): Use [http.Handler] consistently everywhere throughout the
